@@ -60,13 +60,16 @@ NumRanges == { R(1, FALSE, 0, TRUE, 2), R(2, TRUE, 2, FALSE, 0), R(3, TRUE, 1, T
 
 KeyOf(p) == [d \in Docs |-> PatKey(p)[d]]
 
-Requests(p) ==
+Requests(key) ==
   [from : 0..MaxFrom, size : 0..MaxSize, sort : Sorts, mode : {"page"}, cursor : {<<>>}]
   \cup
   UNION { [from : {0}, size : CursorSizes, sort : {s}, mode : {"after", "before"},
-           cursor : {SV(s, d, KeyOf(p)) : d \in Docs}] : s \in Sorts }
+           cursor : {SV(s, d, key) : d \in Docs}] : s \in Sorts }
 
-VARIABLES pat, tree, assign, req,   \* the case
+VARIABLES corpus,    \* [key : doc -> sort key (0 = missing), m : matching documents]
+          root,      \* the alias tree
+          assign,    \* doc -> leaf (shard)
+          req,       \* the request
           pc,
           rreq,      \* request after the SearchBefore rewrite
           creq,      \* child request
@@ -75,18 +78,20 @@ VARIABLES pat, tree, assign, req,   \* the case
           acc,       \* merged SearchResult
           res,       \* final SearchResult
           want       \* the same request on ONE index holding all documents (set at the first step)
-vars == <<pat, tree, assign, req, pc, rreq, creq, pending, got, acc, res, want>>
+vars == <<corpus, root, assign, req, pc, rreq, creq, pending, got, acc, res, want>>
 
-X == [key |-> KeyOf(pat), m |-> PatM(pat) \cap Docs, shard |-> assign,
+X == [key |-> corpus.key, m |-> corpus.m, shard |-> assign,
       fs |-> FS, ranges |-> NumRanges, quirk |-> Quirk]
-Root == Tree(tree)
+Root == root
+Corpus(p) == [key |-> KeyOf(p), m |-> PatM(p) \cap Docs]
 
 NoSR == [hits |-> <<>>, total |-> 0, ft |-> [s \in FS |-> EmptyFR], fn |-> [s \in FS |-> EmptyFR]]
 
 Init ==
-  /\ pat \in PatIds /\ tree \in TreeIds
-  /\ assign \in [Docs -> Leaves(Tree(tree))]
-  /\ req \in Requests(pat)
+  /\ corpus \in {Corpus(p) : p \in PatIds}
+  /\ root \in {Tree(t) : t \in TreeIds}
+  /\ assign \in [Docs -> Leaves(root)]
+  /\ req \in Requests(corpus.key)
   /\ pc = "start" /\ rreq = req /\ creq = req /\ pending = {} /\ got = FALSE
   /\ acc = NoSR /\ res = NoSR /\ want = NoSR
 
@@ -98,7 +103,7 @@ ShortCircuit ==
   /\ res' = Search(X, Root.kids[1], req)
   /\ pc' = "done"
   /\ want' = VisibleSR(Single(X, req))
-  /\ UNCHANGED <<pat, tree, assign, req, rreq, creq, pending, got, acc>>
+  /\ UNCHANGED <<corpus, root, assign, req, rreq, creq, pending, got, acc>>
 
 ChildRequest ==
   /\ pc = "start" /\ Len(Root.kids) > 1
@@ -107,7 +112,7 @@ ChildRequest ==
   /\ pending' = DOMAIN Root.kids
   /\ pc' = "children"
   /\ want' = VisibleSR(Single(X, req))
-  /\ UNCHANGED <<pat, tree, assign, req, got, acc, res>>
+  /\ UNCHANGED <<corpus, root, assign, req, got, acc, res>>
 
 ChildSearch(i) ==
   /\ pc = "children" /\ i \in pending
@@ -115,31 +120,31 @@ ChildSearch(i) ==
      IN acc' = IF got THEN MergeSR(X, acc, r) ELSE r
   /\ got' = TRUE
   /\ pending' = pending \ {i}
-  /\ UNCHANGED <<pat, tree, assign, req, pc, rreq, creq, res, want>>
+  /\ UNCHANGED <<corpus, root, assign, req, pc, rreq, creq, res, want>>
 
 MergeHits ==
   /\ pc = "children" /\ pending = {}
   /\ acc' = SortStep(acc, rreq)
   /\ pc' = "slice"
-  /\ UNCHANGED <<pat, tree, assign, req, rreq, creq, pending, got, res, want>>
+  /\ UNCHANGED <<corpus, root, assign, req, rreq, creq, pending, got, res, want>>
 
 PageSlice ==
   /\ pc = "slice"
   /\ acc' = SliceStep(X, acc, rreq)
   /\ pc' = "fixup"
-  /\ UNCHANGED <<pat, tree, assign, req, rreq, creq, pending, got, res, want>>
+  /\ UNCHANGED <<corpus, root, assign, req, rreq, creq, pending, got, res, want>>
 
 FixupFacets ==
   /\ pc = "fixup"
   /\ acc' = FixupStep(X, acc)
   /\ pc' = "reverse"
-  /\ UNCHANGED <<pat, tree, assign, req, rreq, creq, pending, got, res, want>>
+  /\ UNCHANGED <<corpus, root, assign, req, rreq, creq, pending, got, res, want>>
 
 ReverseBackStep ==
   /\ pc = "reverse"
   /\ res' = ReverseBack(acc, req)
   /\ pc' = "done"
-  /\ UNCHANGED <<pat, tree, assign, req, rreq, creq, pending, got, acc, want>>
+  /\ UNCHANGED <<corpus, root, assign, req, rreq, creq, pending, got, acc, want>>
 
 Next == ShortCircuit \/ ChildRequest \/ (\E i \in pending : ChildSearch(i))
         \/ MergeHits \/ PageSlice \/ FixupFacets \/ ReverseBackStep
@@ -187,14 +192,15 @@ PageBound == pc = "done" /\ ~Quirk => Len(res.hits) <= req.size
 -----------------------------------------------------------------------------
 (* Case enumeration for Engine A (run with -dump): expectation = the single index *)
 EnumInit ==
-  /\ pat \in PatIds /\ tree \in TreeIds
-  /\ assign \in [Docs -> Leaves(Tree(tree))]
-  /\ req \in Requests(pat)
+  /\ corpus \in {Corpus(p) : p \in PatIds}
+  /\ root \in {Tree(t) : t \in TreeIds}
+  /\ assign \in [Docs -> Leaves(root)]
+  /\ req \in Requests(corpus.key)
   /\ pc = "enum" /\ rreq = req /\ creq = req /\ pending = {} /\ got = FALSE
   /\ acc = NoSR /\ res = NoSR /\ want = NoSR
 EnumStep ==
   /\ pc = "enum" /\ pc' = "done"
   /\ want' = VisibleSR(Single(X, req))
-  /\ UNCHANGED <<pat, tree, assign, req, rreq, creq, pending, got, acc, res>>
+  /\ UNCHANGED <<corpus, root, assign, req, rreq, creq, pending, got, acc, res>>
 EnumSpec == EnumInit /\ [][EnumStep]_vars
 =============================================================================
